@@ -6,7 +6,7 @@ package main
 //	impl line: E                                   sqlparser.Parse rejected the text
 //	           N <verdict>                         parsed to something that is not a SELECT statement (not judged)
 //	           X <verdict>                         parsed, but the tree / token use is outside the modelled fragment
-//	           F <dump> P <wire tokens of String(tree)>… R <verdict>
+//	           F <dump> P <wire tokens of String(tree)>… R <verdict> O1
 //	verdict  : same | differ | reparse-err | panic   (Parse(String(Parse(s))) against Parse(s), reflect.DeepEqual)
 
 import (
@@ -121,7 +121,8 @@ func driveC30(toks []string) string {
 		pts, _ := sqlTokenize(printed)
 		pt = wireToks(pts)
 	}
-	return "F " + dump + " P " + pt + " R " + verdict
+	// O1: the Lean model must find the tree inside its parser-image predicate okS (checked by correspondence)
+	return "F " + dump + " P " + pt + " R " + verdict + " O1"
 }
 
 // c30Why: debugging aid (`why <sqlhex>`): the printed text, the verdict and why the statement is outside the fragment
